@@ -89,6 +89,7 @@ type Outcome struct {
 	KnownHit   map[string]*proto.Replay
 	Built      []Built
 	LogHashes  []string
+	RunHashes  map[int]string // run -> log hash (collected when VERIF_RUNLOG is set)
 	Instr      instrument.Stats
 	Start      time.Time
 	BuildSecs  float64
@@ -262,10 +263,17 @@ func runShards(w *Work, node string, batch *proto.Batch, out *Outcome, timeout t
 					out.Samples = append(out.Samples, rep.Samples...)
 				}
 				out.LogHashes = append(out.LogHashes, fmt.Sprintf("%d/%d:%s", s, nw, rep.LogHash))
-				if os.Getenv("VERIF_RUNLOG") != "" {
-					for _, h := range rep.RunHashes {
-						fmt.Println("RUNLOG", batch.Seed, h)
+				for _, h := range rep.RunHashes {
+					var run int
+					var hv string
+					if i := strings.IndexByte(h, ':'); i > 0 {
+						fmt.Sscan(h[:i], &run)
+						hv = h[i+1:]
 					}
+					if out.RunHashes == nil {
+						out.RunHashes = map[int]string{}
+					}
+					out.RunHashes[run] = hv
 				}
 			}
 		}
